@@ -2,6 +2,8 @@ import Zc.Gen.Const
 import Zc.Gen.Dns
 import Zc.Gen.History
 import Zc.Gen.LookupLoop
+import Zc.Gen.QueryTtl
+import Zc.Gen.Outgoing
 /-! Facts about generated leaves/constants used by the C13 proofs (DESIGN §2.2). -/
 namespace Zc.GenFacts.History
 open Zc.Gen
@@ -33,6 +35,25 @@ theorem next_base_eq (now delay : Int) : LookupLoop.next_base now delay = now + 
 
 theorem delay_bump_iff (qm : Bool) (delay : Int) : LookupLoop.delay_bump qm delay = true ↔ (qm = true ∧ delay < 999) := by
   simp [LookupLoop.delay_bump]
+
+/-- the time handed to `add_answer_at_time` by a lookup is the query time -/
+theorem lookup_answer_time_eq (now : Int) : QueryTtl.lookup_answer_time now = now := rfl
+
+/-- the time handed to `add_answer_at_time` by a browser query is the query time (four hops) -/
+theorem browser_answer_time_eq (now : Int) :
+    QueryTtl.bucket_answer_time (QueryTtl.bucket_now_field (QueryTtl.bucket_ctor_time (QueryTtl.group_call_time now))) = now := rfl
+
+/-- a present record is accepted as an answer at a non-zero time iff it is not expired then -/
+theorem answer_accepted_iff (t : Int) (ht : t ≠ 0) (expired : Bool) :
+    Outgoing.answer_accepted true t expired = !expired := by
+  simp [Outgoing.answer_accepted, ht]
+
+/-- at a non-zero time the TTL field is the remaining TTL -/
+theorem ttl_field_nonzero (ttl t rem : Int) (ht : t ≠ 0) : Outgoing.ttl_field ttl t rem = rem := by
+  simp [Outgoing.ttl_field, ht]
+
+/-- the clean-up tick expires the history at the current time -/
+theorem cleanup_expire_time_eq (now : Int) : History.cleanup_expire_time now = now := rfl
 
 theorem listenerTime_eq : listenerTime = 200 := rfl
 theorem duplicateQuestionInterval_eq : duplicateQuestionInterval = 999 := rfl
